@@ -4,6 +4,7 @@ package world
 
 import (
 	"fmt"
+	"runtime"
 	"sort"
 	"strings"
 	"time"
@@ -94,6 +95,7 @@ type Scenario struct {
 	IntnChoice  bool
 	WriteOracle bool
 	NoBootTick  bool
+	RefreshLoop bool // run the real topology refresh goroutine; synchronised with a barrier at every quiescent point
 	InputEnum   bool // the scenario itself is one point of an input enumeration (counts as a distinct non-trivial case)
 	ReuseFds    bool
 	AfterBoot   func(w *World)
@@ -190,6 +192,14 @@ type World struct {
 	RunErr     error
 	EarlyViol  *Violation
 	ProbeReplies int
+	ClusterView []NodeSpec // what the nodes report in CLUSTER NODES (nil: Sc.Nodes); changed by the "nodes-change" fault
+	refreshDone chan struct{}
+	refreshPanic interface{}
+	barrier    chan string
+	barrierSeq int
+	refreshKill bool
+	goBase     int
+	RefreshDead bool
 	TickUnread []map[int]bool // per TICK: Seq of commands whose reply the proxy had not completely read yet
 	Topo       []NodeSpec // current topology as last injected (nil: Sc.Nodes)
 }
@@ -385,7 +395,16 @@ func ExecuteWith(sc *Scenario, choose vsys.Chooser, boot func(w *World)) *World 
 			boot(w)
 			return
 		}
+		if sc.RefreshLoop {
+			w.barrier = make(chan string, 8)
+		}
 		vw, err := core.VerifBoot(w.Handler, w.Ln.Fd, w.Opts, NodesText(sc.Nodes), func(addr string) (*redis.Info, error) {
+			if strings.HasPrefix(addr, "10.255.") {
+				if w.refreshKill {
+					runtime.Goexit() // end of the execution: terminate the refresh goroutine from inside
+				}
+				w.barrier <- addr
+			}
 			return &redis.Info{MasterLinkStatus: "up", Version: "6.0.0"}, nil
 		})
 		if err != nil {
@@ -401,10 +420,15 @@ func ExecuteWith(sc *Scenario, choose vsys.Chooser, boot func(w *World)) *World 
 		if sc.AfterBoot != nil {
 			sc.AfterBoot(w)
 		}
+		if sc.RefreshLoop {
+			w.refreshDone = core.VerifRunRefreshLoop(&w.refreshPanic)
+			w.goBase = runtime.NumGoroutine()
+		}
 	}()
 	if w.VW == nil || w.Panic != nil || w.Livelock {
 		return w
 	}
+	defer w.stopRefresh()
 	err, p, st := w.VW.Run()
 	if p != nil {
 		w.notePanic(p, st)
@@ -412,6 +436,35 @@ func ExecuteWith(sc *Scenario, choose vsys.Chooser, boot func(w *World)) *World 
 		w.RunErr = err
 	}
 	return w
+}
+
+// syncRefresh: every probe reply pushed so far has been processed by the real refresh goroutine.
+func (w *World) syncRefresh() {
+	if w.refreshDone == nil || w.RefreshDead {
+		return
+	}
+	w.barrierSeq++
+	line := fmt.Sprintf("bar 10.255.%d.%d:1@11 slave nobody 0 0 1 connected", w.barrierSeq/250, w.barrierSeq%250)
+	if !core.VerifSendProbeReply(Bulk(line+"\n"), w.refreshDone) {
+		w.RefreshDead = true
+	} else {
+		select {
+		case <-w.barrier:
+		case <-w.refreshDone:
+			w.RefreshDead = true
+		}
+	}
+	core.VerifQuiesce(w.goBase)
+}
+
+func (w *World) stopRefresh() {
+	if w.refreshDone == nil || w.RefreshDead {
+		return
+	}
+	w.refreshKill = true
+	if core.VerifSendProbeReply(Bulk("bar 10.255.250.1:1@11 slave nobody 0 0 1 connected\n"), w.refreshDone) {
+		<-w.refreshDone
+	}
 }
 
 func (w *World) notePanic(r interface{}, stack string) {
@@ -485,7 +538,7 @@ func (w *World) enabled() []event {
 		if w.faultUsed[i] {
 			continue
 		}
-		if f.Kind == "topo" {
+		if f.Kind == "topo" || f.Kind == "nodes-change" {
 			evs = append(evs, event{evFault, i})
 		} else if bc := w.faultTarget(f); bc != nil {
 			evs = append(evs, event{evFault, i})
@@ -543,9 +596,17 @@ func (w *World) wait() (fd int, mask uint32, n int, stop bool) {
 				return 0, 0, 0, true
 			}
 		}
-		for _, m := range core.VerifDrainClusterChan() {
-			_ = m
-			w.ProbeReplies++
+		if w.Sc.RefreshLoop {
+			w.syncRefresh()
+			if w.refreshPanic != nil && w.EarlyViol == nil {
+				w.EarlyViol = &Violation{Sig: "refresh-loop-panics", Msg: fmt.Sprintf("the refresh goroutine panicked: %v", w.refreshPanic)}
+				return 0, 0, 0, true
+			}
+		} else {
+			for _, m := range core.VerifDrainClusterChan() {
+				_ = m
+				w.ProbeReplies++
+			}
 		}
 		evs := w.enabled()
 		if len(evs) == 0 {
@@ -611,6 +672,11 @@ func (w *World) wait() (fd int, mask uint32, n int, stop bool) {
 		case evFault:
 			f := w.Sc.Faults[ev.idx]
 			w.faultUsed[ev.idx] = true
+			if f.Kind == "nodes-change" {
+				w.ClusterView = f.Nodes // from now on the nodes describe this topology in CLUSTER NODES
+				w.Topo = f.Nodes
+				continue
+			}
 			if f.Kind == "topo" {
 				w.Topo = f.Nodes
 				if err := core.VerifUpdateNodes(NodesText(f.Nodes)); err != nil {
@@ -817,7 +883,11 @@ func (w *World) answer(bc *BConn, args [][]byte) ([]byte, int) {
 		if pw != "" && !bc.Authed {
 			return []byte("-NOAUTH Authentication required.\r\n"), 0
 		}
-		return Bulk(NodesText(w.Sc.Nodes) + "\n"), 0
+		view := w.Sc.Nodes
+		if w.ClusterView != nil {
+			view = w.ClusterView
+		}
+		return Bulk(NodesText(view) + "\n"), 0
 	}
 	bc.SawData = true
 	if pw != "" && !bc.Authed {
@@ -838,7 +908,7 @@ func (w *World) answer(bc *BConn, args [][]byte) ([]byte, int) {
 		}
 		if ki < len(args) {
 			slot := SpecSlot(args[ki])
-			m := w.Sc.MasterOf(slot)
+			m := w.masterNow(slot)
 			if m == nil {
 				return []byte("-CLUSTERDOWN Hash slot not served\r\n"), 0
 			}
@@ -984,6 +1054,28 @@ func (w *World) Fingerprint() string {
 	return sb.String()
 }
 
+// masterNow: the (non-failed) master that owns slot in the topology the nodes currently have.
+func (w *World) masterNow(slot int) *NodeSpec {
+	nodes := w.Sc.Nodes
+	if w.ClusterView != nil {
+		nodes = w.ClusterView
+	} else if w.Topo != nil {
+		nodes = w.Topo
+	}
+	for i := range nodes {
+		n := &nodes[i]
+		if n.Master != "" || strings.Contains(n.Flags, "fail") {
+			continue
+		}
+		for _, r := range n.Slots {
+			if slot >= r[0] && slot <= r[1] {
+				return n
+			}
+		}
+	}
+	return nil
+}
+
 // isReplicaNow: role of addr in the topology last injected.
 func (w *World) isReplicaNow(addr string) bool {
 	nodes := w.Sc.Nodes
@@ -996,6 +1088,24 @@ func (w *World) isReplicaNow(addr string) bool {
 		}
 	}
 	return false
+}
+
+// ProbesIdle: every CLUSTER NODES probe sent so far has been answered and the answer read by the proxy, and no task is pending.
+func (w *World) ProbesIdle() bool {
+	if vsys.EfdReady() {
+		return false
+	}
+	for _, bc := range w.BConns {
+		if bc.Sock.Closed {
+			continue
+		}
+		for i, rec := range bc.Log {
+			if Lower(rec.Args[0]) == "cluster" && !bc.ReadByProxy(i) {
+				return false
+			}
+		}
+	}
+	return true
 }
 
 // FaultsDone: every scripted fault has been injected.
